@@ -30,12 +30,13 @@ Definition ann_bit (tbl : list (string * N)) (bit : N) (s : string) : bool :=
   end.
 
 (** Per-NODE annotation bits computed by the harness from the real yaml.Node (harness/shared_yaml/forest.go):
-    bit 10 = Style has LiteralStyle or FoldedStyle; bits 16.. = len(Anchor). *)
+    bit 10 = Style has LiteralStyle or FoldedStyle; bit 11 = Style has DoubleQuotedStyle; bits 16.. = len(Anchor). *)
 Definition node_block (n : node) : bool := N.testbit (n_ann n) 10.
+Definition node_dq (n : node) : bool := N.testbit (n_ann n) 11.
 Definition node_anchor_len (n : node) : nat := N.to_nat (N.shiftr (n_ann n) 16).
 
 Definition plines_run (lines : list string) (n : node) (min_col : nat) : nat * nat :=
-  match pos_lines lines (n_value n) (n_line n) (n_col n) min_col (node_block n) (node_anchor_len n) with
+  match pos_lines lines (n_value n) (n_line n) (n_col n) min_col (node_block n) (node_anchor_len n) (node_dq n) with
   | Some r => r
   | None => (0, 0)
   end.
